@@ -199,6 +199,9 @@ COMB = {
     "Option::<T>::is_none_or": (True, "None", "Some"),
     "Result::<T, E>::is_ok_and": (False, "Err", "Ok"),
     "Result::<T, E>::is_err_and": (False, "Ok", "Err"),
+    # map_or(default, f): the value on the empty variant is the (constant) first argument
+    "Option::<T>::map_or": ("arg", "None", "Some"),
+    "Result::<T, E>::map_or": ("arg", "Err", "Ok"),
 }
 
 
@@ -254,10 +257,17 @@ def comb_alternatives(F, B, key, blk, tv, restrict):
     if tv is None:
         return None
     t = B.blocks[blk]["term"]
-    if len(t["args"]) != 2:
-        return None
-    recv, clo = t["args"]
     empty_val, empty_var, full_var = COMB[key]
+    if empty_val == "arg":
+        if len(t["args"]) != 3:
+            return None
+        d = t["args"][1]
+        if d["k"] != "const" or d.get("ty") != "bool" or d.get("val") is None:
+            return None
+        empty_val = bool(d["val"])
+    elif len(t["args"]) != 2:
+        return None
+    recv, clo = t["args"][0], t["args"][-1]
     rdesc = describe_origin(B, recv, restrict)
     cids = [(o[1], o[2]) for o in B.origins(clo, restrict=restrict) if o[0] == "agg" and o[1] in F.fns]
     if len(cids) != 1:
